@@ -99,6 +99,13 @@ class LockStep:
         self.rec.violation(mechanism, **d)
         self.failed = True
 
+    def _set_model(self, contents):
+        self.m = RefMap(self.fam) if self.is_mapping else RefSet(self.fam)
+        if self.is_mapping:
+            self.m.d = dict(contents)
+        else:
+            self.m.s = set(contents)
+
     def current_walk(self):
         if not self.is_tree:
             return None
@@ -121,6 +128,7 @@ class LockStep:
         margs = tuple(gen.materialize(a, self.fam, self.impl, self.m, True)
                       for a in args)
         before = self.walk
+        self._pre_contents = self.m.contents()
         ro = call(self.c, op, rargs)
         mo = call(self.m, op, margs)
         rec.evaluations += 1
@@ -144,7 +152,19 @@ class LockStep:
                 ok = eq(ro[1], mo[1])
         elif not ignore_result:
             ok = eq(ro[1], mo[1])
-        if not ok and self.judge:
+        if not ok and self.judge == 'contents':
+            # results are C01's business here; keep the model in step
+            rec.ev('result-mismatch-ignored')
+            try:
+                got0 = harness.contents(self.c, self.is_mapping)
+            except Exception:
+                got0 = None
+            if got0 is not None and not eq(got0, self.m.contents()):
+                if op in MUTATING_OPS and ro[0] == 'exc' and mo[0] == 'ok' \
+                        and eq(got0, self._pre_contents):
+                    # the real call refused and changed nothing: undo model
+                    self._set_model(self._pre_contents)
+        elif not ok and self.judge:
             self.violation('result-mismatch', op=op, args=brief(args),
                            observed=brief(ro[:2]), expected=brief(mo[:2]),
                            detail=brief(ro[2]),
@@ -171,12 +191,7 @@ class LockStep:
         if not self.judge and not eq(got, want):
             # structure-only mode: results are another property's business;
             # keep the model in step with what the container really holds
-            self.m = (RefMap(self.fam) if self.is_mapping
-                      else RefSet(self.fam))
-            if self.is_mapping:
-                self.m.d = dict(got)
-            else:
-                self.m.s = set(got)
+            self._set_model(got)
             want = got
             rec.ev('resync')
         elif not eq(got, want) or ln != len(want) or bl != bool(want) or \
